@@ -1,7 +1,58 @@
-"""Obligation portfolio: z3 (in-process) first, then cvc5 (python wheel). 'unknown'/(error is inconclusive."""
-import time
+"""Obligation portfolio: z3 (fresh solver, default tactics) first, then cvc5 (python wheel).
+'unknown' / '(error' is inconclusive.
 
+Cone-of-influence slicing: a query is `path_condition AND extra`; the path condition is known satisfiable
+(CrossHair only extends feasible paths), so assertions that share no free variable (transitively) with `extra`
+can be dropped without changing the answer.  This keeps floating-point questions in the pure QF_FP fragment,
+where z3 bit-blasts instead of using the much slower general SMT core."""
 import z3
+
+
+def _vars(e, cache):
+    k = e.get_id()
+    if k in cache:
+        return cache[k]
+    out = set()
+    stack = [e]
+    seen = set()
+    while stack:
+        t = stack.pop()
+        i = t.get_id()
+        if i in seen:
+            continue
+        seen.add(i)
+        if z3.is_const(t) and t.decl().kind() == z3.Z3_OP_UNINTERPRETED:
+            out.add(t.decl().name())
+        elif z3.is_app(t):
+            stack.extend(t.children())
+        elif z3.is_quantifier(t):
+            stack.append(t.body())
+    cache[k] = out
+    return out
+
+
+def slice_cone(assertions, extra):
+    cache = {}
+    need = set()
+    for e in extra:
+        need |= _vars(e, cache)
+    if not need:
+        return list(assertions)
+    rest = [(a, _vars(a, cache)) for a in assertions]
+    keep = []
+    changed = True
+    while changed:
+        changed = False
+        nxt = []
+        for a, vs in rest:
+            if vs & need:
+                keep.append(a)
+                need |= vs
+                changed = True
+            else:
+                nxt.append((a, vs))
+        rest = nxt
+    return keep
 
 
 def _cvc5(smt2, timeout_s):
@@ -12,9 +63,8 @@ def _cvc5(smt2, timeout_s):
     try:
         slv = cvc5.Solver()
         slv.setOption('tlimit-per', str(int(timeout_s * 1000)))
-        slv.setOption('produce-models', 'false')
         ip = cvc5.InputParser(slv)
-        ip.setStringInput(cvc5.InputLanguage.SMT_LIB_2_6, smt2, 'q')
+        ip.setStringInput(cvc5.InputLanguage.SMT_LIB_2_6, '(set-logic ALL)\n' + smt2, 'q')
         sm = ip.getSymbolManager()
         out = []
         while True:
@@ -35,11 +85,15 @@ def _cvc5(smt2, timeout_s):
         return 'unknown'
 
 
-def check_unsat(assertions, timeout_s=60, use_cvc5=True):
-    """-> ('unsat'|'sat'|'unknown', backend)"""
+def check_unsat(assertions, timeout_s=60, use_cvc5=True, extra=()):
+    """Satisfiability of assertions + extra -> ('unsat'|'sat'|'unknown', backend).
+    With `extra` given, `assertions` must be known satisfiable (it is sliced to the cone of influence of `extra`)."""
+    if extra:
+        assertions = slice_cone(assertions, extra)
     s = z3.Solver()
     s.set('timeout', int(timeout_s * 1000))
     s.add(*assertions)
+    s.add(*extra)
     r = str(s.check())
     if r in ('sat', 'unsat'):
         return r, 'z3-' + z3.get_version_string()
@@ -47,5 +101,5 @@ def check_unsat(assertions, timeout_s=60, use_cvc5=True):
         smt2 = s.to_smt2()
         r = _cvc5(smt2, timeout_s)
         if r in ('sat', 'unsat'):
-            return r, 'cvc5-wheel'
+            return r, 'cvc5-wheel-1.4'
     return 'unknown', 'none'
